@@ -706,6 +706,15 @@ def run(repo: Repo, rep: Report, tier: str) -> None:
                 n += lint_rng_discipline(rep, m_, "BERNOULLI")
     for f_ in repo.module(DG).functions.values():
         n += lint_rng_discipline(rep, f_, "BERNOULLI")
+    # a channel (or a helper of it) that works through the symbols block by block must visit every symbol: the tail left out
+    # by a floor-divided block count never meets the transition law
+    from .c20 import rule_chunk_cover
+
+    cover_funcs = [(DG, f_) for f_ in repo.module(DG).functions.values()]
+    for cname in ("BinarySymmetricChannel", "BinaryErasureChannel", "BinaryZChannel"):
+        cover_funcs += [(cname, m_) for m_ in repo.cls(DG, cname).methods.values()]
+    nc_ = rule_chunk_cover(repo, rep, [], funcs=cover_funcs, consequence="the symbols of the tail keep the initial (no event) value, so they are never flipped / erased whatever the configured probability - the transition law holds only on a prefix of a long input")
+    rep.ok("CHUNK-COVER", DG, f"{len(cover_funcs)} functions of the binary channels scanned for block-by-block loops", f"{nc_} blocked loop(s) judged", nontrivial=False)
     rep.floor("C12 rule instances", n, 26)
     rep.decided_clauses += [
         "each flip/erase indicator is `U < p` with U in [0,1) and p the configured, validated probability",
